@@ -402,8 +402,16 @@ def tail_check(name, alt, p, tst, d, plus1):
     name = CANON.get(name, name)
     want = spec_p(alt, fl(tst), [fl(v) for v in d], plus1)
     if not close(p, want):
+        cls = f"{name}:tail:{alt}"
+        if alt in ("less", "two-sided") and name in ("sim_corr", "stratified_permutationtest", "stratified_two_sample"):
+            # the recorded known finding is ONE specific wrong table: less = 1 - greater, two-sided = 2 min(greater, 1 - greater);
+            # any other value is a different defect and keeps its own class
+            pg = spec_p("greater", fl(tst), [fl(v) for v in d], plus1)
+            recorded = 1 - pg if alt == "less" else 2 * min(pg, 1 - pg)
+            if not close(p, recorded):
+                cls += ":not-the-recorded-table"
         return {"why": f"{name}: p={p} but (#{{dist as extreme as observed, {alt}}}+c)/(reps+c) = {want} (obs={tst}, dist={d}, plus1={plus1})",
-                "cls": f"{name}:tail:{alt}"}
+                "cls": cls}
     return None
 
 
